@@ -971,7 +971,9 @@ func (interp *Interpreter) cfg(root *node, sc *scope, importPath, pkgName string
 				}
 			}
 			if c0.rval.IsValid() && c1.rval.IsValid() && (!isInterface(n.typ)) && constOp[n.action] != nil {
-				n.typ.TypeOf()       // Force compute of reflection type.
+				n.typ.TypeOf() // Force compute of reflection type.
+				c0.typ.TypeOf()
+				c1.typ.TypeOf()
 				constOp[n.action](n) // Compute a constant result now rather than during exec.
 			}
 			switch {
@@ -2358,6 +2360,20 @@ func fixUntyped(nod *node, sc *scope) {
 		}
 		return true
 	}, nil)
+}
+
+// isIntConst returns true if the constant operand n, of value c, is an integer.
+// The type of an expression with operators is not considered, as it may be the
+// one expected for the result, as in "var f float64 = (7 + 1) / 2".
+func isIntConst(n *node, c constant.Value) bool {
+	if c.Kind() != constant.Int {
+		return false
+	}
+	switch n.kind {
+	case binaryExpr, parenExpr, unaryExpr:
+		return true
+	}
+	return isInt(n.typ.rtype)
 }
 
 // isUntypedExpr returns true if n is an untyped non-constant expression,
